@@ -55,7 +55,7 @@ HOSTILE = [
     'csi\x9b' + MARK + '\x9b31m',
     'ff\x0c' + MARK + '\x0bvt\x1c\x1d\x1e',
 ]
-GENS = ['corpus', 'corpus', 'corpus-attr', 'corpus-splice', 'valid-unusual', 'bgpls-names', 'bgpls-names', 'srpolicy-names', 'unknown-attr', 'operational', 'refresh', 'notification', 'ref-update', 'ref-update', 'ref-update', 'rfc7606-mix', 'tunnel-encap', 'bgpls-floats']
+GENS = ['corpus', 'corpus', 'corpus-attr', 'corpus-splice', 'valid-unusual', 'bgpls-names', 'bgpls-names', 'srpolicy-names', 'unknown-attr', 'operational', 'refresh', 'notification', 'ref-update', 'ref-update', 'ref-update', 'rfc7606-mix', 'tunnel-encap', 'bgpls-floats', 'bgpls-nlri']
 ENVELOPE = {'exabgp', 'time', 'host', 'pid', 'ppid', 'counter', 'type'}
 
 
@@ -141,6 +141,38 @@ def build(item: dict, kind: dict) -> tuple[int, bytes, int]:
             tlvs += ttype.to_bytes(2, 'big') + len(sub).to_bytes(2, 'big') + sub
         attrs = base_attrs(kind) + R.attribute(R.A_TUNNEL, tlvs, flags=0xC0)
         return 2, R.build_update(attrs=attrs, nlri=c03.v4nlri(kind, '192.0.2.0/24'))[19:], 0
+    if g == 'bgpls-nlri':
+        # BGP-LS NLRI of every type (node, link, IPv4 prefix, IPv6 prefix) whose descriptor TLVs are any subset of the ones that
+        # type can carry: what decodes has to be rendered, what lacks a mandatory descriptor has to be refused - not half of each
+        def tlv(code: int, v: bytes) -> bytes:
+            return code.to_bytes(2, 'big') + len(v).to_bytes(2, 'big') + v
+
+        node_sub = tlv(512, (65002).to_bytes(4, 'big')) + tlv(515, bytes([0, 0, 0, 0, 0, 1]))
+        t = rng.choice([1, 2, 3, 4, 4])
+        parts = []
+        if rng.chance(0.85):
+            parts.append(tlv(256, node_sub))
+        if t == 2:
+            if rng.chance(0.8):
+                parts.append(tlv(257, tlv(512, (65003).to_bytes(4, 'big')) + tlv(515, bytes([0, 0, 0, 0, 0, 2]))))
+            if rng.chance(0.5):
+                parts.append(tlv(259, bytes([10, 0, 0, 1])))
+            if rng.chance(0.5):
+                parts.append(tlv(260, bytes([10, 0, 0, 2])))
+        if t in (3, 4):
+            if rng.chance(0.3):
+                parts.append(tlv(263, (2).to_bytes(2, 'big')))
+            if rng.chance(0.3):
+                parts.append(tlv(264, bytes([rng.choice([1, 2, 5])])))
+            if rng.chance(0.6):
+                parts.append(tlv(265, bytes([24, 10, 1, 2]) if t == 3 else bytes([48, 0x20, 0x01, 0x0D, 0xB8, 0, 1])))
+        if rng.chance(0.2):
+            rng.shuffle(parts)
+        body_ = bytes([rng.choice([1, 2, 3, 4, 5, 6])]) + bytes(8) + b''.join(parts)
+        nlri = t.to_bytes(2, 'big') + len(body_).to_bytes(2, 'big') + body_
+        mp = (16388).to_bytes(2, 'big') + bytes([71, 4, 10, 0, 0, 9, 0]) + nlri
+        attrs = R.attribute(R.A_ORIGIN, b'\x00') + R.attribute(R.A_AS_PATH, R.enc_as_path([(2, [kind['peer_as']])] if kind['peer_as'] != 65001 else [], kind['asn4'])) + (R.attribute(R.A_LOCAL_PREF, (100).to_bytes(4, 'big')) if kind['peer_as'] == 65001 else b'') + (R.attribute(R.A_MP_REACH, mp) if rng.chance(0.8) else R.attribute(R.A_MP_UNREACH, (16388).to_bytes(2, 'big') + bytes([71]) + nlri))
+        return 2, R.build_update(attrs=attrs)[19:], 0
     if g == 'bgpls-floats':
         # BGP-LS link attributes holding IEEE floats (bandwidths): NaN and the infinities are values a peer can send
         vals = [bytes.fromhex(x) for x in ('7fc00000', '7f800000', 'ff800000', '00000000', '4e6e6b28', 'ffffffff')]
